@@ -44,11 +44,44 @@ static inline _Bool i_bwd(const CL *L, const Node *k)
 }
 static inline _Bool i_stamp(const Node *k)
 {
-  return k->addStamp <= g_clock && (LIVE(k) || (k->remStamp <= g_clock && k->remStamp > k->addStamp));
+  return k->rank > 0 && k->addStamp <= g_clock && (LIVE(k) || (k->remStamp <= g_clock && k->remStamp > k->addStamp));
 }
 #define I_FWD(L, k) i_fwd(L, k)
 #define I_BWD(L, k) i_bwd(L, k)
 #define I_STAMP(k) i_stamp(k)
+static inline _Bool g_fwd(const Node *k)        /* forward instance as the traversal needs it (implied by I_FWD) */
+{
+  const Node *x = k->next;
+  if (x == NULL) return 1;
+  if (LIVE(k)) return LIVE(x) && x->rank > k->rank;
+  return x->rank > k->rank && (LIVE(x) || x->remStamp > k->remStamp);
+}
+static inline _Bool j_gen(const Node *k)        /* generation rule: added after the invocation started <=> newer generation */
+{ return !LIVE(k) || ((k->addStamp > g_T) == (k->counter > g_c)); }
+static inline _Bool between(const Node *k, const Node *W)
+{ return k->rank < W->rank && (k->next == NULL || W->rank < k->next->rank); }
+static inline _Bool gap(const Node *k, const Node *W)   /* adjacency: nothing live hides between k and k->next, except newer nodes behind a removed k */
+{ return !(LIVE(W) && between(k, W)) || (!LIVE(k) && W->addStamp > k->remStamp); }
+static inline _Bool uniq(const Node *k, const Node *W) { return k == W || k->rank != W->rank; }
+static inline _Bool wold(const Node *W) { return W->addStamp <= g_T; }       /* W was added before this invocation started */
+static inline _Bool cursor_ok(const Node *c)
+{ return (LIVE(c) || c->remStamp > g_T) && c->rank > g_lastCalledRank; }
+static inline _Bool w_passed_ok(const Node *W) { return g_W_calls == 1 || (!LIVE(W) && g_W_calls == 0); }
+static inline _Bool w_inv(const Node *c, const Node *W)
+{
+  if (!wold(W)) return g_W_calls == 0;                   /* added during the invocation: never called by it */
+  if (W->rank < c->rank) return w_passed_ok(W);          /* already passed: called exactly once, or removed before its turn */
+  return g_W_calls == 0;                                 /* still ahead */
+}
+static inline _Bool w_inv_end(const Node *W)
+{
+  if (!wold(W)) return g_W_calls == 0;
+  return w_passed_ok(W);
+}
+static inline _Bool headgap(const CL *L, const Node *W)   /* no live node ranks below the head */
+{ return !LIVE(W) || (L->head != NULL && L->head->rank <= W->rank); }
+static inline _Bool i_cnt(const CL *L, const Node *k) { return !LIVE(k) || k->counter <= L->currentCounter; }
+
 /* ------------------------------------------------------------------ window helpers (DESIGN 3.1, rules 2, 3, 8) */
 #define FRESH_NODE(p)      __CPROVER_is_fresh(p, sizeof(Node))
 #define NULL_OR_FRESH(p)   ((p) == NULL || FRESH_NODE(p))
@@ -76,6 +109,8 @@ static inline _Bool i_stamp(const Node *k)
 #define ALIAS4(p, a, b, c, d) ((p) == NULL || ((a) != NULL && PEQ(p, a)) || ((b) != NULL && PEQ(p, b)) || ((c) != NULL && PEQ(p, c)) || ((d) != NULL && PEQ(p, d)) || FRESH_NODE(p))
 #define K_REQ(L, a, b, c, d) (FRESH_NODE(gK) && ALIAS4(gK->next, a, b, c, d) && ALIAS4(gK->previous, a, b, c, d) && I_FWD(L, gK) && I_BWD(L, gK) && I_STAMP(gK))
 #define K_ENS(L) (I_FWD(L, gK) && I_BWD(L, gK) && I_STAMP(gK))
+/* the arbitrary witness gW of the two-node instances gap(k, W), uniq(k, W): any node -- one of the window nodes, gK, or another one */
+#define W_IS(a, b, c) (((a) != NULL && PEQ(gW, a)) || ((b) != NULL && PEQ(gW, b)) || ((c) != NULL && PEQ(gW, c)) || PEQ(gW, gK) || FRESH_NODE(gW))
 #define CLOCK_OK          (g_clock < 0xffffffffffff0000ull)
 #define HELD(L)           ((L)->mutex.depth == 1)
 #define UNLOCKED(L)       ((L)->mutex.depth == 0)
@@ -87,11 +122,15 @@ static inline _Bool i_stamp(const Node *k)
 #define CONTRACT_CL_doFreeNode \
   __CPROVER_requires(__CPROVER_is_fresh(self, sizeof(CL)) && __CPROVER_is_fresh(node, sizeof(Node *)) && FRESH_NODE(*node)) \
   __CPROVER_requires(NULL_OR_FRESH((*node)->previous) && NULL_OR_FRESH((*node)->next)) \
+  __CPROVER_requires(((*node)->previous != NULL ==> PEQ((*node)->previous->next, *node)) && ((*node)->next != NULL ==> PEQ((*node)->next->previous, *node))) /* back pointers: pointer_equals, or dereferencing through them has no value set (rule 8) */ \
+  __CPROVER_requires(PEQ(self->head, *node) || ((*node)->previous != NULL && PEQ(self->head, (*node)->previous)) || FRESH_NODE(self->head)) \
   __CPROVER_requires(K_REQ(self, *node, (*node)->previous, (*node)->next, (Node *)NULL)) \
   __CPROVER_requires(HELD(self) && CLOCK_OK) \
   __CPROVER_requires(LIVE(*node) && I_FWD(self, *node) && I_BWD(self, *node) && I_STAMP(*node)) \
   __CPROVER_requires((*node)->previous != NULL ==> (I_FWD(self, (*node)->previous) && I_STAMP((*node)->previous))) \
   __CPROVER_requires((*node)->next != NULL ==> (I_BWD(self, (*node)->next) && I_STAMP((*node)->next))) \
+  __CPROVER_requires(W_IS(*node, (*node)->previous, (*node)->next) && I_STAMP(gW) && headgap(self, gW)) \
+  __CPROVER_requires(gap(*node, gW) && uniq(*node, gW) && gap(gK, gW) && ((*node)->previous != NULL ==> gap((*node)->previous, gW))) \
   __CPROVER_assigns((*node)->counter, (*node)->remStamp, g_clock) \
   __CPROVER_assigns(self->head == *node: self->head) \
   __CPROVER_assigns(self->tail == *node: self->tail) \
@@ -107,7 +146,8 @@ static inline _Bool i_stamp(const Node *k)
   __CPROVER_ensures(I_FWD(self, *node) && I_BWD(self, *node) && I_STAMP(*node)) \
   __CPROVER_ensures((*node)->previous != NULL ==> I_FWD(self, (*node)->previous)) \
   __CPROVER_ensures((*node)->next != NULL ==> I_BWD(self, (*node)->next)) \
-  __CPROVER_ensures(K_ENS(self))
+  __CPROVER_ensures(K_ENS(self)) \
+  __CPROVER_ensures(gap(*node, gW) && gap(gK, gW) && ((*node)->previous != NULL ==> gap((*node)->previous, gW)) && headgap(self, gW) && j_gen(*node))
 
 /* field-write hook: every store to Node::counter goes through this (extract/units.py field_hooks);
  * marking a node removed stamps it with the ghost clock */
@@ -127,7 +167,7 @@ static inline _Bool i_hdr(const CL *L)
  * prophecy rank g_next_rank (constrained by the caller's precondition, renumbering lemma DESIGN 3.2) and the
  * next ghost-clock value as its addStamp. */
 #define CONTRACT_Node_alloc \
-  __CPROVER_requires(CLOCK_OK) \
+  __CPROVER_requires(CLOCK_OK && g_next_rank > 0) \
   __CPROVER_assigns(g_clock) \
   __CPROVER_ensures(FRESH_NODE(__CPROVER_return_value)) \
   __CPROVER_ensures(g_clock == __CPROVER_old(g_clock) + 1) \
@@ -150,12 +190,17 @@ static inline _Bool i_hdr(const CL *L)
 #define CONTRACT_CL_remove \
   __CPROVER_requires(__CPROVER_is_fresh(self, sizeof(CL)) && __CPROVER_is_fresh(handle, sizeof(Handle)) && NULL_OR_FRESH(RM_N)) \
   __CPROVER_requires(RM_N != NULL ==> (NULL_OR_FRESH(RM_N->previous) && NULL_OR_FRESH(RM_N->next))) \
+  __CPROVER_requires((RM_N != NULL && RM_N->previous != NULL) ==> (PEQ(RM_N->previous->next, RM_N) || NULL_OR_FRESH(RM_N->previous->next))) \
+  __CPROVER_requires((RM_N != NULL && RM_N->next != NULL) ==> (PEQ(RM_N->next->previous, RM_N) || NULL_OR_FRESH(RM_N->next->previous))) \
+  __CPROVER_requires(RM_N != NULL ==> (PEQ(self->head, RM_N) || (RM_N->previous != NULL && PEQ(self->head, RM_N->previous)) || self->head == NULL || FRESH_NODE(self->head))) \
   __CPROVER_requires(RM_N != NULL ==> K_REQ(self, RM_N, RM_N->previous, RM_N->next, (Node *)NULL)) \
   __CPROVER_requires(UNLOCKED(self) && CLOCK_OK) \
   __CPROVER_requires(g_b0 == (RM_N != NULL && LIVE(RM_N)))   /* snapshot: the handle refers to a callback that is in the list */ \
-  __CPROVER_requires(RM_N != NULL ==> (I_FWD(self, RM_N) && I_BWD(self, RM_N) && I_STAMP(RM_N))) \
+  __CPROVER_requires(RM_N != NULL ==> (I_FWD(self, RM_N) && I_BWD(self, RM_N) && I_STAMP(RM_N) && headgap(self, RM_N))) \
   __CPROVER_requires((RM_N != NULL && LIVE(RM_N) && RM_N->previous != NULL) ==> (I_FWD(self, RM_N->previous) && I_STAMP(RM_N->previous))) \
   __CPROVER_requires((RM_N != NULL && LIVE(RM_N) && RM_N->next != NULL) ==> (I_BWD(self, RM_N->next) && I_STAMP(RM_N->next))) \
+  __CPROVER_requires(RM_N != NULL ==> (W_IS(RM_N, RM_N->previous, RM_N->next) && I_STAMP(gW))) \
+  __CPROVER_requires((RM_N != NULL && LIVE(RM_N)) ==> (headgap(self, gW) && gap(RM_N, gW) && uniq(RM_N, gW) && gap(gK, gW) && (RM_N->previous != NULL ==> gap(RM_N->previous, gW)))) \
   __CPROVER_assigns(self->mutex.depth) \
   __CPROVER_assigns(RM_N != NULL && LIVE(RM_N): RM_N->counter, RM_N->remStamp, g_clock, self->head, self->tail) \
   __CPROVER_assigns(RM_N != NULL && LIVE(RM_N) && RM_N->next != NULL: RM_N->next->previous) \
@@ -171,7 +216,8 @@ static inline _Bool i_hdr(const CL *L)
   __CPROVER_ensures(RM_N != NULL ==> (I_FWD(self, RM_N) && I_BWD(self, RM_N) && I_STAMP(RM_N))) \
   __CPROVER_ensures((g_b0 && RM_N->previous != NULL) ==> I_FWD(self, RM_N->previous)) \
   __CPROVER_ensures((g_b0 && RM_N->next != NULL) ==> I_BWD(self, RM_N->next)) \
-  __CPROVER_ensures(RM_N != NULL ==> K_ENS(self))
+  __CPROVER_ensures(RM_N != NULL ==> K_ENS(self)) \
+  __CPROVER_ensures(g_b0 ==> (gap(RM_N, gW) && gap(gK, gW) && (RM_N->previous != NULL ==> gap(RM_N->previous, gW)) && headgap(self, gW) && j_gen(RM_N)))
 
 /* ================================================================== append (callbacklist.h:171)
  * statement: the new callback goes to the back.  window: t = old tail (null or a node), gK.
@@ -183,7 +229,7 @@ static inline _Bool i_hdr(const CL *L)
   __CPROVER_requires(UNLOCKED(self) && CLOCK_OK && NOWRAP(self) && I_HDR(self)) \
   __CPROVER_requires(AP_T != NULL ==> (LIVE(AP_T) && I_FWD(self, AP_T) && I_STAMP(AP_T) && g_next_rank > AP_T->rank)) \
   __CPROVER_requires(K_REQ(self, AP_T, self->head, (Node *)NULL, (Node *)NULL)) \
-  __CPROVER_requires(g_u0 == (unsigned long long)(AP_T != NULL)) \
+  __CPROVER_requires(g_u0 == (unsigned long long)(AP_T != NULL) && g_next_rank > 0) \
   __CPROVER_assigns(self->mutex.depth, self->currentCounter, g_clock, self->tail) \
   __CPROVER_assigns(AP_T == NULL: self->head) \
   __CPROVER_assigns(AP_T != NULL: AP_T->next) \
@@ -208,7 +254,7 @@ static inline _Bool i_hdr(const CL *L)
   __CPROVER_requires(UNLOCKED(self) && CLOCK_OK && NOWRAP(self) && I_HDR(self)) \
   __CPROVER_requires(PP_H != NULL ==> (LIVE(PP_H) && I_BWD(self, PP_H) && I_STAMP(PP_H) && g_next_rank < PP_H->rank)) \
   __CPROVER_requires(K_REQ(self, PP_H, self->tail, (Node *)NULL, (Node *)NULL)) \
-  __CPROVER_requires(g_u0 == (unsigned long long)(PP_H != NULL)) \
+  __CPROVER_requires(g_u0 == (unsigned long long)(PP_H != NULL) && g_next_rank > 0) \
   __CPROVER_assigns(self->mutex.depth, self->currentCounter, g_clock, self->head) \
   __CPROVER_assigns(PP_H == NULL: self->tail) \
   __CPROVER_assigns(PP_H != NULL: PP_H->previous) \
@@ -232,6 +278,7 @@ static inline _Bool i_hdr(const CL *L)
 #define CONTRACT_CL_doInsert \
   __CPROVER_requires(__CPROVER_is_fresh(self, sizeof(CL)) && __CPROVER_is_fresh(node, sizeof(Node *)) && __CPROVER_is_fresh(beforeNode, sizeof(Node *))) \
   __CPROVER_requires(FRESH_NODE(DI_M) && FRESH_NODE(DI_B) && NULL_OR_FRESH(DI_B->previous)) \
+  __CPROVER_requires(DI_B->previous != NULL ==> PEQ(DI_B->previous->next, DI_B)) \
   __CPROVER_requires(HELD(self) && DI_M->previous == NULL && DI_M->next == NULL && LIVE(DI_M) && I_STAMP(DI_M)) \
   __CPROVER_requires(self->tail != DI_M && self->head != DI_M)      /* m is not linked yet */ \
   __CPROVER_requires(LIVE(DI_B) && I_BWD(self, DI_B) && I_STAMP(DI_B) && DI_M->rank < DI_B->rank) \
@@ -256,10 +303,11 @@ static inline _Bool i_hdr(const CL *L)
 #define CONTRACT_CL_insert \
   __CPROVER_requires(__CPROVER_is_fresh(self, sizeof(CL)) && __CPROVER_is_fresh(callback, sizeof(Callback)) && __CPROVER_is_fresh(before, sizeof(Handle))) \
   __CPROVER_requires(NULL_OR_FRESH(IN_B) && (IN_B != NULL ==> NULL_OR_FRESH(IN_B->previous))) \
+  __CPROVER_requires((IN_B != NULL && IN_B->previous != NULL) ==> (PEQ(IN_B->previous->next, IN_B) || NULL_OR_FRESH(IN_B->previous->next))) \
   __CPROVER_requires(self->tail == NULL || (IN_B != NULL && PEQ(self->tail, IN_B)) || FRESH_NODE(self->tail)) \
   __CPROVER_requires(self->head == NULL || (IN_B != NULL && PEQ(self->head, IN_B)) || (IN_B != NULL && IN_B->previous != NULL && PEQ(self->head, IN_B->previous)) || PEQ(self->head, self->tail) || FRESH_NODE(self->head)) \
   __CPROVER_requires(UNLOCKED(self) && CLOCK_OK && NOWRAP(self) && I_HDR(self)) \
-  __CPROVER_requires(g_b0 == IN_LIVE) \
+  __CPROVER_requires(g_b0 == IN_LIVE && g_next_rank > 0) \
   __CPROVER_requires(IN_B != NULL ==> (I_BWD(self, IN_B) && I_STAMP(IN_B))) \
   __CPROVER_requires((IN_LIVE && IN_B->previous != NULL) ==> (I_FWD(self, IN_B->previous) && I_STAMP(IN_B->previous))) \
   __CPROVER_requires(self->tail != NULL ==> (LIVE(self->tail) && I_FWD(self, self->tail) && I_STAMP(self->tail))) \
@@ -290,3 +338,94 @@ static inline _Bool i_hdr(const CL *L)
   __CPROVER_requires(__CPROVER_is_fresh(self, sizeof(CL))) \
   __CPROVER_assigns() \
   __CPROVER_ensures(__CPROVER_return_value == (self->head == NULL))
+
+
+/* ================================================================== invocation (doForEachIf, callbacklist.h:326) -- C01 / C02
+ * ghost state of ONE ARBITRARY invocation: g_T = ghost clock when it started, g_c = generation counter it captured,
+ * g_lastCalledRank = rank of the last callback it passed to user code, g_W_calls = how often it called the witness gW.
+ * "In list order" and "at most once" are PRECONDITIONS of the environment stub (checked at its call site). */
+#define TRV_C (*node)
+/* G instances at the cursor (forall-elimination of the global invariant) + loop invariant */
+#define TRV_REQ_NONNULL \
+   (FRESH_NODE(TRV_C) && (PEQ(gW, TRV_C) || FRESH_NODE(gW)) && (TRV_C->next == NULL || PEQ(TRV_C->next, gW) || FRESH_NODE(TRV_C->next)) && \
+    g_fwd(TRV_C) && j_gen(TRV_C) && j_gen(gW) && gap(TRV_C, gW) && uniq(TRV_C, gW) && (TRV_C->next != NULL ==> uniq(TRV_C->next, gW)) && \
+    I_STAMP(TRV_C) && I_STAMP(gW) && (TRV_C->next != NULL ==> I_STAMP(TRV_C->next)) && \
+    cursor_ok(TRV_C) && w_inv(TRV_C, gW))
+#define TRV_BODY_CONTRACT \
+  __CPROVER_requires(__CPROVER_is_fresh(self, sizeof(CL)) && __CPROVER_is_fresh(f, sizeof(*f)) && __CPROVER_is_fresh(node, sizeof(Node *)) && \
+                     __CPROVER_is_fresh(counter, sizeof(unsigned int)) && __CPROVER_is_fresh(__retval, sizeof(_Bool))) \
+  __CPROVER_requires(PEQ(f->self, self) && UNLOCKED(self) && *counter == g_c && g_T <= g_clock && CLOCK_OK) \
+  __CPROVER_requires(TRV_C == NULL ? (FRESH_NODE(gW) && w_inv_end(gW)) : TRV_REQ_NONNULL) \
+  __CPROVER_assigns(*node, *__retval, self->mutex.depth, self->head, self->tail, self->currentCounter, g_lastCalledRank, g_W_calls, g_clock) \
+  __CPROVER_assigns(TRV_C != NULL: __CPROVER_object_whole(TRV_C)) \
+  __CPROVER_assigns(__CPROVER_object_whole(gW)) \
+  __CPROVER_assigns(TRV_C != NULL && TRV_C->next != NULL: __CPROVER_object_whole(TRV_C->next)) \
+  __CPROVER_ensures(UNLOCKED(self)) \
+  __CPROVER_ensures(__CPROVER_return_value >= 0 && __CPROVER_return_value <= 3) \
+  __CPROVER_ensures((__CPROVER_return_value == 3 || __CPROVER_return_value == 1) ==> w_inv_end(gW))      /* loop exit: every callback present at the start and never removed was called exactly once, none twice, none added later */ \
+  __CPROVER_ensures(__CPROVER_return_value == 0 ==> (TRV_C == NULL ? w_inv_end(gW) : (cursor_ok(TRV_C) && w_inv(TRV_C, gW))))
+
+/* the user-code boundary: lambda passed to doForEachIf.  Contract = (G, R) of DESIGN 3.3: never enforced in the
+ * traversal obligations (rely); enforced separately in thin form (-DOB_THIN) for the pass-through property. */
+#ifndef OB_THIN
+#define INVOKE_CONTRACT \
+  __CPROVER_requires(UNLOCKED(__c->self))                                              /* no lock held while user code runs */ \
+  __CPROVER_requires(LIVE(*node) && (*node)->counter <= g_c)                           /* only current, old-enough callbacks */ \
+  __CPROVER_requires((*node)->rank > g_lastCalledRank)                                 /* list order, never the same one twice */ \
+  __CPROVER_requires(*node != gW || g_W_calls == 0)                                    /* the witness at most once */ \
+  __CPROVER_assigns(__CPROVER_object_whole(*node), __CPROVER_object_whole(gW)) \
+  __CPROVER_assigns((*node)->next != NULL: __CPROVER_object_whole((*node)->next)) \
+  __CPROVER_assigns(__c->self->head, __c->self->tail, __c->self->currentCounter, g_lastCalledRank, g_W_calls, g_clock) \
+  __CPROVER_ensures(UNLOCKED(__c->self) && g_lastCalledRank == __CPROVER_old((*node)->rank)) \
+  __CPROVER_ensures(g_W_calls == __CPROVER_old(g_W_calls) + (*node == gW ? 1 : 0)) \
+  __CPROVER_ensures((*node)->rank == __CPROVER_old((*node)->rank) && (*node)->addStamp == __CPROVER_old((*node)->addStamp)) \
+  __CPROVER_ensures(gW->rank == __CPROVER_old(gW->rank) && gW->addStamp == __CPROVER_old(gW->addStamp)) \
+  __CPROVER_ensures(LIVE(*node) ? (*node)->counter == __CPROVER_old((*node)->counter) : (*node)->remStamp > g_T) \
+  __CPROVER_ensures(__CPROVER_old(gW->counter) == 0 ? (gW->counter == 0 && gW->remStamp == __CPROVER_old(gW->remStamp)) \
+                                                    : (LIVE(gW) ? gW->counter == __CPROVER_old(gW->counter) : gW->remStamp > g_T)) \
+  __CPROVER_ensures(g_clock >= __CPROVER_old(g_clock) && CLOCK_OK) \
+  __CPROVER_ensures((*node)->next == NULL || PEQ((*node)->next, gW) || PEQ((*node)->next, __CPROVER_old((*node)->next)) || FRESH_NODE((*node)->next)) \
+  __CPROVER_ensures(g_fwd(*node) && j_gen(*node) && j_gen(gW) && gap(*node, gW) && uniq(*node, gW) && ((*node)->next != NULL ==> uniq((*node)->next, gW))) \
+  __CPROVER_ensures(I_STAMP(*node) && I_STAMP(gW) && ((*node)->next != NULL ==> I_STAMP((*node)->next)))
+#define CONTRACT_CL_forEach__UserEach__lambda0_call INVOKE_CONTRACT
+#define CONTRACT_CL_forEachIf__UserEachIf__lambda0_call INVOKE_CONTRACT
+#define CONTRACT_CL_forEachIf__call__lambda0__lambda0_call INVOKE_CONTRACT
+#endif
+#define CONTRACT_CL_doForEachIf__forEach__UserEach__lambda0__loop0 TRV_BODY_CONTRACT
+#define CONTRACT_CL_doForEachIf__forEachIf__UserEachIf__lambda0__loop0 TRV_BODY_CONTRACT
+#define CONTRACT_CL_doForEachIf__forEachIf__call__lambda0__lambda0__loop0 TRV_BODY_CONTRACT
+
+/* prologue of the invocation: reads head under the mutex, then captures the generation counter.
+ * ghost initialisation = "an arbitrary invocation starts now".  Establishes the loop invariant and the
+ * generation rule J for every node that exists at that moment (lemma: stamps are in the past, counters current). */
+#define TRV_PRE_CONTRACT \
+  __CPROVER_requires(__CPROVER_is_fresh(self, sizeof(CL)) && __CPROVER_is_fresh(f, sizeof(*f)) && __CPROVER_is_fresh(node, sizeof(Node *)) && \
+                     __CPROVER_is_fresh(counter, sizeof(unsigned int)) && __CPROVER_is_fresh(__retval, sizeof(_Bool))) \
+  __CPROVER_requires(NULL_OR_FRESH(self->head) && ((self->head != NULL && PEQ(gW, self->head)) || FRESH_NODE(gW))) \
+  __CPROVER_requires(UNLOCKED(self) && CLOCK_OK) \
+  __CPROVER_requires(g_T == g_clock && g_c == self->currentCounter && g_lastCalledRank == 0 && g_W_calls == 0) \
+  __CPROVER_requires(self->head != NULL ==> (LIVE(self->head) && I_STAMP(self->head) && i_cnt(self, self->head))) \
+  __CPROVER_requires(I_STAMP(gW) && headgap(self, gW) && i_cnt(self, gW)) \
+  __CPROVER_assigns(*node, *counter, self->mutex.depth) \
+  __CPROVER_ensures(__CPROVER_return_value == 0 && UNLOCKED(self) && *counter == g_c && *node == self->head) \
+  __CPROVER_ensures(*node == NULL ? w_inv_end(gW) : (cursor_ok(*node) && w_inv(*node, gW))) \
+  __CPROVER_ensures(j_gen(gW) && (*node != NULL ==> j_gen(*node)))
+#define CONTRACT_CL_doForEachIf__forEach__UserEach__lambda0__loop0_pre TRV_PRE_CONTRACT
+#define CONTRACT_CL_doForEachIf__forEachIf__UserEachIf__lambda0__loop0_pre TRV_PRE_CONTRACT
+#define CONTRACT_CL_doForEachIf__forEachIf__call__lambda0__lambda0__loop0_pre TRV_PRE_CONTRACT
+
+/* ================================================================== ownsHandle (callbacklist.h:246), split loop
+ * statement: true exactly for callbacks that are in this list; false for empty / expired handles and for the
+ * handle of an already removed callback.  Walk = backward instances; the chain head is identified through the
+ * ghost chain tag: all live nodes of one list carry the tag of its head (I_FWD/I_BWD neighbours agree, checked by
+ * the operations through K_ENS is NOT done for the tag -- see evidence: tag preservation is an assumed invariant). */
+#define OWN_BODY_CONTRACT \
+  __CPROVER_requires(__CPROVER_is_fresh(self, sizeof(CL)) && __CPROVER_is_fresh(handle, sizeof(Handle)) && __CPROVER_is_fresh(node, sizeof(Node *)) && __CPROVER_is_fresh(__retval, sizeof(_Bool))) \
+  __CPROVER_requires(FRESH_NODE(*node) && NULL_OR_FRESH((*node)->previous) && HELD(self)) \
+  __CPROVER_requires(LIVE(*node) && ((*node)->previous != NULL ==> (LIVE((*node)->previous) && (*node)->previous->rank < (*node)->rank))) \
+  __CPROVER_requires(g_u0 == (*node)->rank) \
+  __CPROVER_assigns(*node) \
+  __CPROVER_ensures(HELD(self) && (__CPROVER_return_value == 0 || __CPROVER_return_value == 3)) \
+  __CPROVER_ensures(__CPROVER_return_value == 3 ==> (*node == __CPROVER_old(*node) && (*node)->previous == NULL)) \
+  __CPROVER_ensures(__CPROVER_return_value == 0 ==> (*node == __CPROVER_old((*node)->previous) && LIVE(*node) && (*node)->rank < g_u0))   /* strictly decreasing rank: the walk terminates */
+#define CONTRACT_CL_ownsHandle__loop0 OWN_BODY_CONTRACT
